@@ -25,6 +25,7 @@ import (
 type Stream struct {
 	In         [][]byte // chunks waiting to be read; each Read returns (a prefix of) the head chunk
 	Out        []byte   // everything written
+	Writes     [][]byte // the individual Write calls (datagram boundaries for DTLS-style conns)
 	Closed     bool     // closed locally
 	PeerClosed bool     // peer sent FIN: Read returns io.EOF once In is drained
 	ReadErr    error    // Read fails with this error once In is drained
@@ -75,6 +76,7 @@ func (s *Stream) Write(b []byte) (int, error) {
 		return 0, s.WriteErr
 	}
 	s.Out = append(s.Out, b...)
+	s.Writes = append(s.Writes, append([]byte{}, b...))
 	return len(b), nil
 }
 
